@@ -186,6 +186,40 @@ func c19(c *Check) {
 	c.Extra["abi_struct_pairs"] = pairNames
 	c.Req(nPairs >= 11, "C19/abi-tuple-struct", "pairs examined", pkg.Func("init").Pos(), fmt.Sprint(nPairs), fmt.Sprintf("only %d (struct, tuple) pairs found", nPairs))
 
+	c.Rule("C19/no-lossy-json-hop", "the JSON hop of the ABI decoders unmarshals straight into the typed target: no json.Unmarshal on the decode path targets interface{} / map[string]interface{} (numbers would pass through float64 and uint64 values above 2^53 would be rounded)", 5)
+	{
+		seen := map[*ssa.Function]bool{}
+		var work []*ssa.Function
+		for _, tname := range []string{"Packet", "Acknowledgement", "Result", "EventSendPacket", "TransferData", "CallData"} {
+			for _, meth := range []string{"ABIDecode", "DecodeInterface"} {
+				if fn := c.P.FuncOpt(pkT + tname + "." + meth); fn != nil {
+					work = append(work, fn)
+				}
+			}
+		}
+		n := 0
+		for len(work) > 0 {
+			fn := work[len(work)-1]
+			work = work[:len(work)-1]
+			if seen[fn] || len(fn.Blocks) == 0 {
+				continue
+			}
+			seen[fn] = true
+			for _, cs := range c.P.CallsIn(fn) {
+				if f := c.P.resolveCallee(cs.Ins.Common()); f != nil && inTeleport(f) {
+					work = append(work, f)
+				}
+				if cs.Name != "encoding/json.Unmarshal" {
+					continue
+				}
+				n++
+				t := stripConv(cs.Ins.Common().Args[1]).Type()
+				c.Req(!hasInterfaceElem(t, 0), "C19/no-lossy-json-hop", funcName(fn)+": json.Unmarshal target "+typeStr(t), cs.Ins.Pos(), "typed target", "json.Unmarshal into "+typeStr(t)+": numbers are decoded as float64, so uint64 fields above 2^53 are rounded before they reach the typed struct")
+			}
+		}
+		c.Req(n >= 5, "C19/no-lossy-json-hop", "decode paths examined", pkg.Func("init").Pos(), fmt.Sprint(n), fmt.Sprintf("only %d json.Unmarshal calls found on the decode paths", n))
+	}
+
 	c.Rule("C19/commit-covers-packet", "CommitPacket hashes ABIPack of the whole packet; CommitAcknowledgement hashes the acknowledgement bytes", 2)
 	cp := c.F(pkT + "CommitPacket")
 	okCP := false
@@ -314,4 +348,28 @@ func c19(c *Check) {
 		}
 	}
 	tokenisationRule(c, "C19/reader-tokenisation", fams)
+}
+
+// hasInterfaceElem: t (through pointers, maps, slices, arrays) contains an interface-typed element.
+func hasInterfaceElem(t types.Type, d int) bool {
+	if d > 6 {
+		return false
+	}
+	switch u := t.Underlying().(type) {
+	case *types.Interface:
+		return true
+	case *types.Pointer:
+		// a pointer to a named struct is a typed target
+		if _, isStruct := u.Elem().Underlying().(*types.Struct); isStruct {
+			return false
+		}
+		return hasInterfaceElem(u.Elem(), d+1)
+	case *types.Map:
+		return hasInterfaceElem(u.Elem(), d+1)
+	case *types.Slice:
+		return hasInterfaceElem(u.Elem(), d+1)
+	case *types.Array:
+		return hasInterfaceElem(u.Elem(), d+1)
+	}
+	return false
 }
